@@ -40,10 +40,9 @@ NORM = [
     (r'asyncio\.wait_for\((.*)\.wait\(\), timeout=(.*)\)$', r'\1.wait(timeout=\2)'),
     (r'self\.create_event\(\)', 'self.service_task_event'),
     (r'float\(self\.ping_timeout\)', 'self.ping_timeout'),
-    (r"query\.get\('sid', \[None\]\)\[0\]", "query['sid'][0] if 'sid' in query else None"),
     (r'^return self\._make_response\((self\._bad_request\(.*\)), environ\)$', r'def r := \1'),
 ]
-DROP = [r"^call query\.get\('sid', \[None\]\)$", r'^return self\._make_response\(r, environ\)$', r"^return \[r\['response'\]\]$",
+DROP = [r'^return self\._make_response\(r, environ\)$', r"^return \[r\['response'\]\]$",
         r'^call start_response\(', r'^call self\._make_response\(', r'^call self\.queue\.get\(\)$',
         r'^call asyncio\.iscoroutinefunction\(', r'^handler ', r'^call .*\.logger\.',
         r'^call self\._log_error_once\(', r'^call self\.logger\.', r'^exc ',
